@@ -168,7 +168,7 @@ PROPS = {
     },
     "C09": {
         "engine": "queue",
-        "level_text": 'Lean 4 theorems C09.drop_never_blocks / stop_request_survives / last_drop_terminates / drains_before_release over the same LTS, for every capacity >= 1 or unbounded, every occupancy (full queue included) and every outcome script.',
+        "level_text": 'Lean 4 theorems C09.drop_never_blocks / stop_request_survives / last_drop_terminates / drains_before_release over the same LTS, for every capacity >= 1 or unbounded, every occupancy (full queue included) and every outcome script. PARTIAL for capacity 0 (which the property includes): a rendezvous channel is outside the model (the polling loop repaired in cea8c71 is not modelled); for it the property is tested by the correspondence (queue0 cases, qstop0 race scenario), not proved.',
         "level_note": _Q_NOTE,
         "technique": 'Lean 4 proof (invariant + progress + termination measure after the last drop) + last-drop correspondence at every occupancy',
         "trusted_base": _Q_TB,
